@@ -18,7 +18,7 @@ OUT = f"{ROOT}/verif"
 M = [
  # name, file, old, new, checks
  ("get_range-wraparound-drops-second-half", "src/store/fs.rs", "iter.chain(Some(iter2).into_iter().flatten())", "{ let _ = iter2; chain_none(iter) }", ["C08", "C01"]),
- ("get_first-returns-default", "src/store/fs.rs", "        let Some(record) = records.next() else {\n            return Ok(RecordIdentifier::default());\n        };", "        let Some(record) = records.next() else {\n            return Ok(RecordIdentifier::default());\n        };\n        if false { let _ = &record; }\n        #[allow(unreachable_code)]\n        { let _unused = (); }\n        let record = record;\n        if std::env::var(\"NEVER\").is_ok() { return Ok(RecordIdentifier::default()); }\n        let _ = &record; return Ok(RecordIdentifier::default());", ["C08", "C01"]),
+ ("get_first-returns-default", "src/store/fs.rs", "        let id = RecordIdentifier::new(namespace_id, author_id, key);\n        Ok(id)", "        let _ = RecordIdentifier::new(namespace_id, author_id, key);\n        Ok(RecordIdentifier::default())", ["C08", "C01"]),
  ("put-admission-le-to-lt", "src/ranger.rs", "if entry.value() <= prefix_entry.value() {", "if entry.value() < prefix_entry.value() {", ["C02", "C08"]),
  ("put-prune-ge-to-gt", "src/ranger.rs", "|value| entry.value() >= value", "|value| entry.value() > value", ["C02", "C08"]),
  ("parents-stop-one-byte-early", "src/store/fs.rs", "        if key.pop().is_none() {\n            break;\n        }", "        if key.len() <= 1 {\n            break;\n        }\n        key.pop();", ["C02", "C08"]),
@@ -29,12 +29,15 @@ M = [
  ("query-desc-uses-next", "src/store/fs/ranges.rs", "SortDirection::Desc => self.next_back(),", "SortDirection::Desc => self.next(),", ["C05"]),
  ("bykey-exact-upper-bound-fe", "src/store/fs/bounds.rs", "let end = (ns.to_bytes(), key.clone(), [255u8; 32]);", "let end = (ns.to_bytes(), key.clone(), [254u8; 32]);", ["C05"]),
  ("capability-merge-replaces", "src/sync.rs", "        if matches!(self, Capability::Read(_)) && matches!(other, Capability::Write(_)) {", "        if !matches!(other, Capability::Read(_)) || matches!(self, Capability::Write(_)) {", ["C07"]),
- ("import-namespace-stores-incoming", "src/store/fs.rs", "                        (existing, outcome)\n                    } else {", "                        let _ = existing;\n                        (capability, outcome)\n                    } else {", ["C07"]),
+ ("import-namespace-stores-incoming", "src/store/fs.rs", "                        let mut existing = parse_capability(existing.value())?;\n                        let outcome = if existing.merge(capability)? {\n                            ImportNamespaceOutcome::Upgraded\n                        } else {\n                            ImportNamespaceOutcome::NoChange\n                        };\n                        (existing, outcome)", "                        let mut existing = parse_capability(existing.value())?;\n                        let incoming = capability.clone();\n                        let outcome = if existing.merge(capability)? {\n                            ImportNamespaceOutcome::Upgraded\n                        } else {\n                            ImportNamespaceOutcome::NoChange\n                        };\n                        (incoming, outcome)", ["C07"]),
  ("actor-skips-merge-on-upgrade", "src/actor.rs", "                if let ImportNamespaceOutcome::Upgraded = outcome {", "                if let ImportNamespaceOutcome::Inserted = outcome {", ["C07"]),
  ("codec-frame-len-lt-to-le", "src/net/codec.rs", "        if src.len() < 4 + frame_len {", "        if src.len() <= 4 + frame_len {", ["C09", "C10"]),
  ("codec-drop-max-size-check", "src/net/codec.rs", "        ensure!(\n            frame_len <= MAX_MESSAGE_SIZE,\n            \"received message that is too large: {}\",\n            frame_len\n        );", "", ["C09"]),
  ("ticket-accepts-empty-nodes", "src/ticket.rs", "        if res.nodes.is_empty() {", "        if res.nodes.len() > 1_000_000 {", ["C09"]),
- ("tie-break-gt-to-lt-everywhere", "src/engine/state.rs", "    if self_node_id.as_bytes() > other_node_id.as_bytes() {", "    if self_node_id.as_bytes()[0] > other_node_id.as_bytes()[1] {", ["C11"]),
+ ("tie-break-both-sides-accept", "src/engine/state.rs", "    if self_node_id.as_bytes() > other_node_id.as_bytes() {", "    if self_node_id.as_bytes() != other_node_id.as_bytes() {", ["C11"]),
+ ("tie-break-both-sides-decline", "src/engine/state.rs", "    if self_node_id.as_bytes() > other_node_id.as_bytes() {", "    if self_node_id.as_bytes() == other_node_id.as_bytes() {", ["C11"]),
+ ("accept-while-running-accept", "src/engine/state.rs", "                Origin::Accept => AcceptOutcome::Reject(AbortReason::AlreadySyncing),", "                Origin::Accept => AcceptOutcome::Allow,", ["C11"]),
+ ("connect-declined-frees-any-state", "src/engine/state.rs", "            SyncState::Running {\n                origin: Origin::Connect(_),\n                ..\n            } => {\n                self.state = SyncState::Idle;\n                self.resync_requested\n            }", "            SyncState::Running { .. } => {\n                self.state = SyncState::Idle;\n                self.resync_requested\n            }", ["C11"]),
  ("finish-keeps-running-on-error", "src/engine/state.rs", "        self.last_sync = Some((Instant::now(), result));\n        self.state = SyncState::Idle;", "        let failed = result.is_err();\n        self.last_sync = Some((Instant::now(), result));\n        if !failed {\n            self.state = SyncState::Idle;\n        }", ["C11"]),
  ("resync-flag-never-cleared", "src/engine/state.rs", "        };\n        self.resync_requested = false;\n    }", "        };\n    }", ["C11"]),
  ("event-also-on-not-inserted", "src/ranger.rs", "                    if let InsertOutcome::Inserted { .. } = outcome {\n                        on_insert_cb(self, entry, content_status).await;\n                    }", "                    let _ = outcome;\n                    on_insert_cb(self, entry, content_status).await;", ["C12", "C03"]),
@@ -59,6 +62,10 @@ M = [
  ("fix-d1-reverted-parents-skip-markers", "src/store/fs.rs", "let entry = get_exact(table, namespace, author, &key, true);", "let entry = get_exact(table, namespace, author, &key, false);", ["C02", "C01", "C04", "C08"]),
  ("drop-without-flush", "src/store/fs.rs", "        if let Err(err) = self.flush() {\n            warn!(\"failed to trigger final flush: {:?}\", err);\n        }", "        let _ = &self.db;", ["C06", "C02"]),
  ("entry-put-in-own-transaction", "src/store/fs.rs", "        // Same transaction as the preceding prefix removal of `put`.\n        self.store.as_mut().modify_same_transaction(|tables| {", "        self.store.as_mut().modify(|tables| {", ["C06"]),
+ ("record-encode-swaps-len-and-hash", "src/sync.rs", "        out.extend_from_slice(&self.len.to_be_bytes());\n        out.extend_from_slice(self.hash.as_ref());", "        out.extend_from_slice(self.hash.as_ref());\n        out.extend_from_slice(&self.len.to_be_bytes());", ["C09"]),
+ ("alice-unwraps-frame", "src/net/codec.rs", "        let msg = msg.map_err(ConnectError::sync)?;\n        match msg {\n            Message::Init { .. } => {", "        let msg = msg.unwrap();\n        match msg {\n            Message::Init { .. } => {", ["C10"]),
+ ("unsubscribe-removes-first", "src/sync.rs", "        self.0.retain(|s| !same_channel(s, sender));", "        let _ = sender;\n        if !self.0.is_empty() {\n            self.0.remove(0);\n        }", ["C12", "C14"]),
+ ("local-insert-sends-no-event", "src/sync.rs", "            InsertOrigin::Local => Event::LocalInsert { namespace, entry },", "            InsertOrigin::Local => return Ok(removed_count),", ["C12"]),
  ("bob-processes-before-accept-decision", None, None, None, []),
 ]
 
